@@ -224,6 +224,9 @@ def run(ctx, out, tier):
                 out.viol("C10.cols", "C10.cols|%s|start" % name, where, "start column of a %s violation: %s" % (name, "; ".join(what)))
             lenr = P.has_call(ec, r"<impl str>::len$")
             rend = any(l[0] == "call" and re.search(r"regex::Match(::<'h>)?::range$", l[1]) and "end" in l[2] for l in ec) or P.has_call(ec, r"regex::Match(::<'h>)?::end$")
+            # (`m.start() + m.as_str().len()` is `m.end()`)
+            rstart_e = any(l[0] == "call" and re.search(r"regex::Match(::<'h>)?::range$", l[1]) and "start" in l[2] for l in ec) or P.has_call(ec, r"regex::Match(::<'h>)?::start$")
+            rend = rend or (rstart_e and lenr and P.has_call(ec, r"regex::Match(::<'h>)?::as_str$"))
             if lenr and (rend or not uses_regex):
                 n_cols += 1
             else:
